@@ -16,6 +16,7 @@ import (
 	"encoding/json"
 	"fmt"
 	"math/rand"
+	"regexp"
 	"sort"
 	"strings"
 	"testing"
@@ -34,6 +35,9 @@ type c43Step struct {
 	Op    string   `json:"op,omitempty"`    // req: read, insert, update, delete, create, drop
 	Via   string   `json:"via,omitempty"`   // rows, abstract, tx
 	N     int64    `json:"n,omitempty"`     // row id / table number
+	// UParam: a user query parameter added to the request ("user=bob", "USER=bob", "user=bob&user=admin", "user=", …);
+	// a non-administrator stays judged by his OWN grants whatever it says
+	UParam string `json:"uparam,omitempty"`
 	// txscript: a multi-operation @transaction script (each entry: operation + table)
 	Script []c43TxOp `json:"script,omitempty"`
 }
@@ -345,6 +349,42 @@ func genC43History(rng *rand.Rand, steps int, tag string) *c43History {
 				}
 			}
 
+			// the request-mutation dimension: a user parameter naming somebody else (who may hold the grant), the administrator,
+			// nobody, an unknown user; also spelled in capitals and repeated
+			if s.User != "admin" || rng.Intn(3) == 0 {
+				others := []string{"admin", "nosuchuser", ""}
+				for _, u := range c43Users {
+					if u != s.User {
+						others = append(others, u, u)
+					}
+				}
+
+				o := others[rng.Intn(len(others))]
+
+				switch x := rng.Intn(100); {
+				case x < 40:
+					s.UParam = "user=" + o
+				case x < 47:
+					s.UParam = "USER=" + o
+				case x < 54:
+					s.UParam = "user=" + o + "&user=admin"
+				case x < 58:
+					s.UParam = "User=" + o
+				}
+
+				if s.User != "admin" && rng.Intn(12) == 0 {
+					// the caller tries to hand out table permissions (to himself or to somebody else)
+					tgt := []string{s.User, o}[rng.Intn(2)]
+					if tgt == "" {
+						tgt = s.User // (an empty name would be a grant to the user "")
+					}
+
+					s.Op, s.Via, s.Table, s.UParam = "grant", "rows", c43Tables[rng.Intn(2)], "user="+tgt
+				} else if s.User != "admin" && rng.Intn(20) == 0 {
+					s.Op, s.Via, s.Table = "sql", "rows", c43Tables[rng.Intn(2)]
+				}
+			}
+
 			h.Steps = append(h.Steps, s)
 		}
 	}
@@ -612,7 +652,49 @@ func (c *c43Run) request(h *c43History, si int, s c43Step, m *c43Model, hid stri
 		} else {
 			method, path = "DELETE", base+s.Table
 		}
+	case "grant":
+		method, path, body = "PUT", base+s.Table+"/permissions", `["+ego.table.read","+ego.table.delete"]`
+	case "sql":
+		if t0, okRow := c.maxID(s.Table); okRow {
+			target = t0
+		}
+
+		bq, _ := json.Marshal(fmt.Sprintf("DELETE FROM %s WHERE id=%d", s.Table, target))
+		method, path, body = "POST", base+"@sql", string(bq)
 	}
+
+	if s.UParam != "" {
+		if strings.Contains(path, "?") {
+			path += "&" + s.UParam
+		} else {
+			path += "?" + s.UParam
+		}
+	}
+
+	// grant: what the administrator sees of the target's permissions on the table, before and after
+	grantTarget := s.User
+	if strings.HasPrefix(s.UParam, "user=") && !strings.Contains(s.UParam, "&") && len(s.UParam) > 5 {
+		grantTarget = s.UParam[5:]
+	}
+
+	permsOf := func() string {
+		if s.Op != "grant" {
+			return ""
+		}
+
+		pr := e.Do("admin", "GET", base+s.Table+"/permissions"+q("user", grantTarget), nil)
+
+		var doc struct {
+			Permissions []string `json:"permissions"`
+		}
+
+		_ = json.Unmarshal(pr.Body, &doc)
+		sort.Strings(doc.Permissions)
+
+		return fmt.Sprintf("%d %v", pr.Status, doc.Permissions)
+	}
+
+	permsBefore := permsOf()
 
 	before := c.state()
 
@@ -625,14 +707,48 @@ func (c *c43Run) request(h *c43History, si int, s c43Step, m *c43Model, hid stri
 	after := c.state()
 
 	verdict, why := m.verdict(s)
-	r.Count("requests", 1)
-	r.Count("requests."+s.Op+"."+s.Via, 1)
-	r.Count(fmt.Sprintf("status.%d", resp.Status), 1)
-	r.Eval(fmt.Sprintf("%s|%s|%s|%s|%s|%d|%s", s.User, s.DSN, s.Table, s.Op, s.Via, verdict, why), s.User != "admin")
 
-	key := func(what string) string { return s.Op + ":" + s.Via + ":" + what }
+	switch s.Op {
+	case "grant":
+		// handing out table permissions: the caller must administer the DSN or the table (or the DSN is not restricted)
+		g := m.tbl[s.DSN+"."+s.Table][s.User]
+
+		switch {
+		case s.User == "admin" || !m.restricted[s.DSN]:
+			verdict, why = 1, "administrator or unrestricted DSN"
+		case m.dsnBits[s.DSN][s.User]&8 != 0 || g["ego.table.admin"]:
+			verdict, why = 1, "caller administers the DSN or the table"
+		default:
+			verdict, why = -1, "caller holds neither a DSN admin grant nor a table admin grant of his own"
+		}
+	case "sql":
+		verdict, why = -1, "caller does not hold ego.sql"
+	}
+
+	permsAfter := permsOf()
+	via := s.Via
+
+	if s.UParam != "" {
+		via += "+user"
+
+		declared := regexp.MustCompile(`^user=[^&]*$`).MatchString(s.UParam) && s.Via != "tx" && (s.Op == "read" || s.Op == "insert" || s.Op == "update" || s.Op == "delete" || s.Op == "grant")
+		if !declared && verdict == 1 {
+			// the route does not declare the parameter, or it is misspelled / repeated: refusing the request is as good as serving it
+			verdict, why = 0, why+"; user parameter not accepted on this route in this form"
+		}
+
+		r.Count("requests.with-user-parameter", 1)
+		r.Count("user-parameter."+map[bool]string{true: "by-admin", false: "by-non-admin"}[s.User == "admin"]+fmt.Sprintf(".status.%dxx", resp.Status/100), 1)
+	}
+
+	r.Count("requests", 1)
+	r.Count("requests."+s.Op+"."+via, 1)
+	r.Count(fmt.Sprintf("status.%d", resp.Status), 1)
+	r.Eval(fmt.Sprintf("%s|%s|%s|%s|%s|%d|%s|%s", s.User, s.DSN, s.Table, s.Op, s.Via, verdict, why, s.UParam), s.User != "admin")
+
+	key := func(what string) string { return s.Op + ":" + via + ":" + what }
 	viol := func(what, desc string) {
-		r.Violate(vh.Violation{Key: key(what), Desc: fmt.Sprintf("%s %s as %s -> %d %s: %s; model: %s", method, vh.Trunc(path, 160), s.User, resp.Status, vh.Trunc(msgOrBody(resp), 140), desc, why),
+		r.Violate(vh.Violation{Key: key(what), Desc: fmt.Sprintf("%s %s as %s -> %d %s: %s; model: %s", method, vh.Trunc(path, 200), s.User, resp.Status, vh.Trunc(msgOrBody(resp), 140), desc, why),
 			Case: map[string]any{"history": h, "failing_step": si}, Expected: map[int]string{1: "allowed", -1: "denied", 0: "unspecified"}[verdict], Observed: resp.Status})
 	}
 
@@ -670,6 +786,20 @@ func (c *c43Run) request(h *c43History, si int, s c43Step, m *c43Model, hid stri
 		effect = c.tableExists(s.Table)
 	case "drop":
 		effect = !c.tableExists(s.Table)
+	case "grant":
+		effect = permsAfter != permsBefore || strings.Contains(permsAfter, "ego.table.delete")
+
+		if permsAfter != permsBefore && verdict != 1 {
+			before += " perms:" + permsBefore
+			after += " perms:" + permsAfter
+		}
+
+		if resp.Status < 400 {
+			// keep the model in step with the store
+			m.apply(c43Step{Kind: "tgrant", User: grantTarget, DSN: s.DSN, Table: s.Table, Perms: []string{"+ego.table.read", "+ego.table.delete"}})
+		}
+	case "sql":
+		effect = before != after
 	}
 
 	ok := resp.Status < 400 && resp.Panic == ""
